@@ -126,6 +126,36 @@ def run(tier):
     r2 = faulty.run(h, d, tag="c12-fault", timeout=3000)
     bf.judge(v, "C12", suite, faulty, r2, {"fault", "lockfail", "complete"}, "fault run")
     v.cov["follow_up_sequences_on_one_handle"] = ngroups
+    # pass 3: the lock is REALLY refused by the kernel -- another process (this one) holds a write lock (a) on the shared
+    # byte range only, so that the reader's first step (pending byte) succeeds and its second step fails, (b) on the pending
+    # byte only.  (A real SQLite writer always holds the pending byte when it holds the range; C07 covers those states.)
+    import fcntl, os
+    for which, start, length in (("shared-range", 0x40000000 + 2, 510), ("pending-byte", 0x40000000, 1)):
+        real = btrace.OpSet()
+        for s in suite:
+            real.add_db(s["tdb"])
+        picked = [(s, tpl) for (s, tpl) in tpls if not s["name"].startswith("P")]
+        picked = rnd.sample(picked, min(len(picked), 40 if tier == "quick" else 400))
+        for s, tpl in picked:
+            k = add(real, s, tpl, lockfail=True)
+            real.items[k]["h"].pop("lock_fail", None)           # nothing is injected: the kernel refuses
+            real.items[k]["conf"] = False
+            real.items[k]["meta"]["cls"] += "/kernel-refuses-" + which
+        fds = []
+        try:
+            for s in suite:
+                fd = os.open(s["path"], os.O_RDWR)
+                fcntl.lockf(fd, fcntl.LOCK_EX | fcntl.LOCK_NB, length, start, 0)
+                fds.append(fd)
+            r3 = real.run(h, d, tag="c12-lock-" + which, timeout=3000)
+        finally:
+            for fd in fds:
+                os.close(fd)
+        bf.judge(v, "C12", suite, real, r3, {"lockfail", "fault"}, "lock refused by the kernel (%s)" % which)
+        v.cov["kernel_lock_refusals_" + which.replace("-", "_")] = len(real.items)
+    # the same through database/sql: the failure must reach the consumer (Driver.tla), also under the race detector
+    from checks import c19
+    c19.driver_faults(v, "C12", h, common.build_harness(race=True), d, rnd, tier)
     fired = sum(1 for it in faulty.items if it["res"].get("fired"))
     for it in faulty.items:
         if it["res"].get("fired"):
